@@ -5,18 +5,24 @@ Real code driven: `pyatv.core.facade.FacadeAppleTV` (constructed exactly as
 `pyatv.connect` does, the facade itself being the `device_listener` StateProducer) with
 1..3 dummy protocols registered through real `SetupData` (connect/close callables, an
 interfaces map with a RemoteControl, a Features and a real `AbstractPushUpdater`
-subclass, features), a user `DeviceListener` and a user `PushListener` that record what
-they receive.  Reports reach the facade the way the protocols make them:
+subclass, features), a user `DeviceListener` and a user `PushListener`.  Reports reach
+the facade the way the protocols make them:
 `device_listener.listener.connection_lost(exc)` / `.connection_closed()`, either directly
 (DMAP's `_close`) or through the real `MrpConnection.connection_lost`,
 `CompanionConnection.connection_lost`, `AirPlayMrpConnection.handle_connection_lost`.
 A protocol's `close()` emits a configurable list of reports re-entrantly and returns a
 set of real tasks.
 
-Event tokens (shared with the Lean driver, see lean/PyatvModel/C09/Driver.lean):
-  r<i>c | r<i>l<e>  protocol i reports closed | lost(exception e);  u  atv.close();
+The user's listeners are *scripted user code*: when a handler is invoked it records the
+call, then makes the public-API calls and `close()` calls its behaviour lists from INSIDE
+the callback (recording what each one saw), and finally raises if told to.  The
+behaviour is part of each report / push token, so model and oracle quantify over it.
+
+Tokens (shared with the Lean driver, see lean/PyatvModel/C09/Driver.lean):
+  r<i>c<beh> | r<i>l<e><beh>  protocol i reports closed | lost(exception e);  u  atv.close();
   a<m>  public member m of the generated table, on the object the user holds;
-  s | t  push_updater.start()/stop();  p<i>  protocol i's push updater posts an update.
+  s | t  push_updater.start()/stop();  p<i><beh>  protocol i's push updater posts an update;
+  <beh> = [~a<m>+u+...][!]   calls made from inside the handler, `!` = the handler then raises.
 """
 import asyncio
 import gc
@@ -25,23 +31,48 @@ import itertools
 
 RULE = ("event sequences over {protocol i reports lost(exc)|closed, user close(), public API call on the top "
         "object / on a held interface object} for 1..3 protocols x close()-time report configurations x listener "
-        "set/unset: exhaustive up to a tier-dependent length (a push-update probe follows every event), then longer "
-        "sequences sampled from ctx.rng, each followed by a sweep over every public member of every facade object; "
-        "non-trivial = the device gets closed or reported lost AND something happens afterwards (another report, a "
-        "second close(), an API call); distinct = (listener, protocol configs, reporters, event list)")
+        "set/unset x listener behaviour {returns, raises, calls the API and close() from inside the callback, both}: "
+        "exhaustive up to a tier-dependent length (a push-update probe and an API probe follow every event), then longer "
+        "sequences sampled from ctx.rng with random handler behaviours (DeviceListener and PushListener), each followed "
+        "by a sweep over every public member of every facade object; non-trivial = the device gets closed or reported "
+        "lost AND something happens afterwards or inside the callback (another report, a second close(), an API call); "
+        "distinct = (listener, protocol configs, reporters, event list)")
 ASSUMPTIONS = [
     "the user keeps a strong reference to the DeviceListener it registered (a listener that was set and then "
     "garbage-collected is outside the property's quantifier: such runs are compared with the model and recorded, not judged)",
     "the DeviceListener implements both methods of pyatv.interface.DeviceListener",
     "Features.in_state(states) with no feature names (a query that touches nothing) is not counted as a call on the device",
     "reports are delivered at event granularity: a report is the evaluation of device_listener.listener.<method>, as in the protocols",
+    "'after any protocol reports' includes the notification callback itself: a public-API call made from inside the "
+    "DeviceListener callback must already raise BlockedStateError, and the device must be blocked whether or not the callback raises",
+    "an exception raised by the user's own handler may propagate to whoever invoked it (the reporting protocol, or the "
+    "user's own close() call when a protocol reports while being closed): that is not judged; what the device does afterwards is",
 ]
-TRUSTED = ["the dummy protocols, session manager and recording listeners of harness/c09.py",
+TRUSTED = ["the dummy protocols, session manager and scripted listeners of harness/c09.py",
            "tools/gen/c09.py introspection of shield.guard wrappers (cross-checked each run by calling every member after close)"]
 
 PROTOCOL_ORDER = ["MRP", "DMAP", "Companion"]          # decreasing facade priority: protocol 0 is the main instance
 DEFAULT_REPORTERS = ["mrp", "direct", "companion"]
 N_EXC = 4
+
+
+class UserBug(Exception):
+    """raised by the scripted user handlers"""
+
+
+# ------------------------------------------------------------------------------ tokens
+
+def split_beh(tok):
+    """'c~a10+u!' -> ('c', ['a10', 'u'], True)"""
+    raises = tok.endswith("!")
+    if raises:
+        tok = tok[:-1]
+    if "~" in tok:
+        head, inner = tok.split("~", 1)
+        inner = inner.split("+")
+    else:
+        head, inner = tok, []
+    return head, inner, raises
 
 
 # ------------------------------------------------------------------------------ fakes
@@ -67,18 +98,32 @@ def make_classes():
         def __init__(self, env):
             self.env = env
 
+        def _handle(self, kind, exception):
+            env = self.env
+            cur = env.current
+            env.notified.append((cur, kind, exception))
+            _h, inner, raises = env.behaviours.get(cur, ("", [], False))
+            env.run_inner("d", inner)
+            if raises:
+                raise UserBug("device listener handler")
+
         def connection_lost(self, exception):
-            self.env.notified.append((self.env.current, "l", exception))
+            self._handle("l", exception)
 
         def connection_closed(self):
-            self.env.notified.append((self.env.current, "c", None))
+            self._handle("c", None)
 
     class PushRecorder(interface.PushListener):
         def __init__(self, env):
             self.env = env
 
         def playstatus_update(self, updater, playstatus):
-            self.env.pushed += 1
+            env = self.env
+            env.pushed += 1
+            inner, raises = env.push_behaviour
+            env.run_inner("p", inner)
+            if raises:
+                raise UserBug("push listener handler")
 
         def playstatus_error(self, updater, exception):
             self.env.push_errors += 1
@@ -117,10 +162,9 @@ class Env:
 
     def __init__(self, shared, lmode, protos, reporters):
         from pyatv import interface
-        from pyatv.const import FeatureName, FeatureState, Protocol
-        from pyatv.core import AbstractPushUpdater, CoreStateDispatcher, ProtocolStateDispatcher, SetupData
+        from pyatv.const import FeatureName, Protocol
+        from pyatv.core import CoreStateDispatcher, ProtocolStateDispatcher, SetupData
         from pyatv.core.facade import FacadeAppleTV
-        from pyatv.settings import Settings
 
         env = self
         self.shared = shared
@@ -129,14 +173,20 @@ class Env:
         self.dispatcher = CoreStateDispatcher()
         self.atv = FacadeAppleTV(shared["config"], self.session, self.dispatcher, shared["settings"])
         self.reports = []          # (i, kind, exc) in emission order
+        self.behaviours = {}       # report number -> (head, inner, raises): what the handler does if invoked for it
+        self.push_behaviour = ([], False)
         self.current = None
         self.notified = []         # what the user's DeviceListener received
         self.close_log = []
         self.pushed = 0
         self.push_errors = 0
-        self.escaped = []          # exceptions that escaped from close()/a report
+        self.escaped = []          # library exceptions that escaped from close()/a report
         self.sets = []             # distinct objects returned by close(), strong refs
-        self.last_returned = None
+        self.returned = []         # every object returned by any close() (top-level or from inside a callback)
+        self.inner_log = []        # "<d|p><tok>=<out>"
+        self.problems = []
+        self.premise = False       # closed by the user, or some protocol reported
+        self.loop_errors = []
         self.excs = shared["excs"]
         self.rc_calls = 0
 
@@ -216,15 +266,79 @@ class Env:
                 if probe() is not None:      # CPython frees it by reference count; be safe elsewhere
                     gc.collect()
 
-    # -- events -------------------------------------------------------------------------
-    def report(self, i, kd):
-        exc = None if kd == "c" else self.excs[int(kd[1:])]
-        self.reports.append((i, kd, exc))
+    # -- calls ---------------------------------------------------------------------------
+    def report(self, i, tok):
+        """protocol i evaluates device_listener.listener.<method>(...) for report token `tok`"""
+        head, inner, raises = split_beh(tok)
+        exc = None if head == "c" else self.excs[int(head[1:])]
+        self.reports.append((i, head, exc))
+        self.behaviours[len(self.reports) - 1] = (head, inner, raises)
+        self.premise = True            # "after any protocol reports": from here on, the callback included
         prev, self.current = self.current, len(self.reports) - 1
         try:
             self.reporter_objs[i](exc)
         finally:
             self.current = prev
+
+    def do_close(self):
+        """atv.close() -> 'set<idx>:<n>' | 'userRaised' | 'raised'"""
+        try:
+            ret = self.atv.close()
+        except UserBug:
+            self.premise = True
+            return "userRaised"
+        except Exception as ex:
+            self.premise = True
+            self.escaped.append(type(ex).__name__)
+            return "raised"
+        self.premise = True
+        self.returned.append(ret)
+        idx = next((j for j, s in enumerate(self.sets) if s is ret), None)
+        if idx is None:
+            self.sets.append(ret)
+            idx = len(self.sets) - 1
+        try:
+            n = len(ret)
+        except Exception:
+            n = -1
+        return "set%d:%d" % (idx, n)
+
+    def call_member_sync(self, m):
+        """-> 'blocked' | 'pass' | 'pass:<ExceptionClass>' (a coroutine that a guard let through is not run)"""
+        from pyatv.exceptions import BlockedStateError
+
+        row = self.shared["table"]["members"][m]
+        obj = self.held[row["obj"]]
+        try:
+            if row["is_property"]:
+                getattr(obj, row["name"])
+            else:
+                res = getattr(obj, row["name"])(*self.shared["args"][m])
+                if inspect.iscoroutine(res):
+                    res.close()
+        except BlockedStateError:
+            return "blocked"
+        except Exception as ex:
+            return "pass:" + type(ex).__name__
+        return "pass"
+
+    def run_inner(self, who, inner):
+        """user code inside a callback: every call's outcome is caught and recorded"""
+        members = self.shared["table"]["members"]
+        for tok in inner:
+            was = self.premise
+            if tok == "u":
+                out = self.do_close()
+                if who == "d" and out in ("raised",):
+                    self.problems.append(("callback-close:raised", "close() called from inside the DeviceListener callback raised %s" % self.escaped))
+            else:
+                out = self.call_member_sync(int(tok[1:])).split(":")[0]
+                row = members[int(tok[1:])]
+                if was and out != "blocked" and row["kind"] != "closeExempt":
+                    where = "the DeviceListener callback" if who == "d" else "a PushListener callback after close/loss"
+                    self.problems.append(("callback-api-not-blocked:%s.%s" % (row["iface"], row["name"]),
+                                          "%s.%s called from inside %s did not raise BlockedStateError" % (row["iface"], row["name"], where)))
+            self.inner_log.append("%s%s=%s" % (who, tok, out))
 
     async def do(self, tok):
         from pyatv.exceptions import BlockedStateError
@@ -233,28 +347,14 @@ class Env:
         if tok[0] == "r":
             try:
                 self.report(int(tok[1]), tok[2:])
+            except UserBug:
+                return "escaped"
             except Exception as ex:  # observation
                 self.escaped.append(type(ex).__name__)
+                return "exc"
             return "-"
         if tok == "u":
-            try:
-                ret = self.atv.close()
-            except Exception as ex:
-                self.escaped.append(type(ex).__name__)
-                return "raised"
-            try:
-                self.last_returned = frozenset(ret)
-            except Exception:
-                self.last_returned = None
-            idx = next((j for j, s in enumerate(self.sets) if s is ret), None)
-            if idx is None:
-                self.sets.append(ret)
-                idx = len(self.sets) - 1
-            try:
-                n = len(ret)
-            except Exception:
-                n = -1
-            return "set%d:%d" % (idx, n)
+            return self.do_close()
         if tok[0] == "a":
             return await self.call_member(int(tok[1:]))
         if tok in ("s", "t"):
@@ -266,10 +366,12 @@ class Env:
                 return "pass:" + type(ex).__name__
             return "pass"
         if tok[0] == "p":
+            head, inner, raises = split_beh(tok[1:])
+            self.push_behaviour = (inner, raises)
             before = self.pushed
             self.shared["n"] += 1
             try:
-                self.pushers[int(tok[1:])].post_update(Playing(title="t%d" % self.shared["n"]))
+                self.pushers[int(head)].post_update(Playing(title="t%d" % self.shared["n"]))
             except Exception as ex:
                 self.escaped.append("push:" + type(ex).__name__)
             await asyncio.sleep(0)
@@ -290,8 +392,6 @@ class Env:
                 res = fn(*self.shared["args"][m])
                 if inspect.isawaitable(res):
                     res = await res
-                if row["name"] == "close" and row["obj"] == 0:
-                    return "pass"
         except BlockedStateError:
             return "blocked"
         except Exception as ex:
@@ -302,7 +402,6 @@ class Env:
 def dummy_args(table):
     """one argument list per member (only evaluated when a guard lets the call through)"""
     from pyatv.const import FeatureName, FeatureState
-    from pyatv.core.facade import FacadeAppleTV  # noqa
     from tools.gen import c09 as gen
 
     atv = gen.build_facade()
@@ -334,27 +433,24 @@ async def run_case(shared, case):
     """-> observation dict of the real facade for one case"""
     lmode, protos, reporters, events = case["listener"], case["protos"], case["reporters"], case["events"]
     env = Env(shared, lmode, [(t, list(k)) for t, k in protos], reporters)
+    env.loop.set_exception_handler(lambda loop, context: env.loop_errors.append(type(context.get("exception")).__name__))
     await env.setup()
-    outs, problems = [], []
-    premise = False           # closed by the user, or some protocol reported
+    outs, problems = [], env.problems
     api_classes = []
     closes = []
+    members = shared["table"]["members"]
     for pos, tok in enumerate(events):
-        was = premise
-        nrep = len(env.reports)
+        was = env.premise
         out = await env.do(tok)
         if tok == "u":
-            premise = True
-            closes.append((out, list(env.close_log), env.last_returned))
-        if len(env.reports) > nrep and tok[0] == "r":
-            premise = True
+            closes.append((out, list(env.close_log), was))
         short = out.split(":")[0] if out.startswith("pass") else out
         outs.append(short)
         if out.startswith("pass:"):
             api_classes.append(out[5:])
         # ---- direct oracle, per event
         if tok[0] == "a" and was and short != "blocked":
-            name = shared["table"]["members"][int(tok[1:])]
+            name = members[int(tok[1:])]
             if name["kind"] != "closeExempt":
                 problems.append(("api-not-blocked:%s.%s" % (name["iface"], name["name"]),
                                  "event %d: %s.%s did not raise BlockedStateError after close/loss (%s)" % (pos, name["iface"], name["name"], out)))
@@ -365,9 +461,9 @@ async def run_case(shared, case):
             problems.append(("push-after-close", "event %d: a push update reached the user's PushListener after close/loss" % pos))
     # sweep: every public member of every object, when the premise holds
     bits = None
-    if premise and case.get("sweep", True):
+    if env.premise and case.get("sweep", True):
         bits = []
-        for m, row in enumerate(shared["table"]["members"]):
+        for m, row in enumerate(members):
             if row["kind"] == "closeExempt":
                 bits.append("0")
                 continue
@@ -377,18 +473,27 @@ async def run_case(shared, case):
                 problems.append(("api-not-blocked:%s.%s" % (row["iface"], row["name"]),
                                  "after the sequence %s.%s did not raise BlockedStateError (%s)" % (row["iface"], row["name"], r)))
         bits = "".join(bits)
-    # close() again: same set, nothing re-closed
+    # close() again: same pending tasks, nothing re-closed.  A close() may propagate the
+    # exception of the user's own handler (userRaised) only when it is the call that does the
+    # closing; a close() of an already closed/lost device must simply return.
+    for out, _log, was in closes:
+        if out == "raised" or (out == "userRaised" and was):
+            problems.append(("close-again:raised", "close() raised (%s): %s" % (out, env.escaped)))
+            break
+    # "returns the same pending tasks": the same task objects, judged when the sequence is over
+    # (whether the *set object* is the same one is compared with the model, not demanded here)
+    try:
+        contents = [frozenset(r) for r in env.returned]
+    except Exception:
+        contents = []
+    if any(c != contents[0] for c in contents[1:]):
+        problems.append(("close-again:different-tasks", "repeated close() returned different pending tasks: sizes %s" % [len(c) for c in contents]))
     if closes:
-        if any(o == "raised" for o, _, _ in closes):
-            problems.append(("close-again:raised", "close() raised: %s" % env.escaped))
-        # "returns the same pending tasks": the same task objects (whether the *set object* is
-        # the same one is compared with the model, not demanded here)
-        contents = [c for o, _, c in closes if o != "raised" and c is not None]
-        if any(c != contents[0] for c in contents[1:]):
-            problems.append(("close-again:different-tasks", "repeated close() returned different pending tasks: %s" % [o for o, _, _ in closes]))
         first_log = closes[0][1]
-        if any(log != first_log for _, log, _ in closes[1:]) or len(set(env.close_log)) != len(env.close_log):
-            problems.append(("close-again:protocol-reclosed", "a protocol was closed more than once: close log %s" % env.close_log))
+        if any(log != first_log for _, log, _ in closes[1:]):
+            problems.append(("close-again:protocol-reclosed", "a repeated close() closed protocols again: close log %s" % env.close_log))
+    if len(set(env.close_log)) != len(env.close_log):
+        problems.append(("close-again:protocol-reclosed", "a protocol was closed more than once: close log %s" % env.close_log))
     # notifications
     if lmode != "d":
         if len(env.notified) > 1:
@@ -404,8 +509,9 @@ async def run_case(shared, case):
     obs = {
         "outs": outs, "N": notified, "C": env.atv.calls_made, "K": list(env.close_log),
         "P": "-" if pend is None else "%d:%d" % (next((j for j, s in enumerate(env.sets) if s is pend), len(env.sets)), len(pend)),
-        "B": bits, "R": 1 if env.escaped else 0, "escaped": env.escaped, "premise": premise,
-        "problems": problems, "api_classes": api_classes, "session_closed": env.session.closed,
+        "B": bits, "R": 1 if env.escaped else 0, "I": list(env.inner_log), "escaped": env.escaped, "premise": env.premise,
+        "problems": list(problems), "api_classes": api_classes, "session_closed": env.session.closed,
+        "loop_errors": list(env.loop_errors),
     }
     # let the tasks created by close() finish
     if pend:
@@ -423,18 +529,18 @@ def model_line(case):
 
 def canon_impl(obs):
     csv = lambda xs: ",".join(str(x) for x in xs) if xs else "-"
-    return "%s N=%s C=%d K=%s P=%s B=%s R=%d" % (csv(obs["outs"]), csv(obs["N"]), obs["C"], csv(obs["K"]), obs["P"],
-                                                  obs["B"] if obs["B"] is not None else "*", obs["R"])
+    return "%s N=%s C=%d K=%s P=%s B=%s R=%d I=%s" % (csv(obs["outs"]), csv(obs["N"]), obs["C"], csv(obs["K"]), obs["P"],
+                                                       obs["B"] if obs["B"] is not None else "*", obs["R"], csv(obs["I"]))
 
 
 def canon_model(ans, obs):
     parts = ans.split(" ")
-    if len(parts) != 8:
+    if len(parts) != 9:
         return ans
-    outs, n, c, k, p, b, _s, r = parts
+    outs, n, c, k, p, b, _s, r, i = parts
     if obs["B"] is None:      # not swept in this case
         b = "B=*"
-    return " ".join([outs, n, c, k, p, b, r])
+    return " ".join([outs, n, c, k, p, b, r, i])
 
 
 # ------------------------------------------------------------------------------ generators
@@ -449,38 +555,61 @@ def with_probes(events, probes):
     return out
 
 
-def alphabet(n, api):
+def alphabet(n, api, beh):
     syms = []
     for i in range(n):
-        syms += ["r%dc" % i, "r%dl%d" % (i, i + 1)]
+        syms += ["r%dc%s" % (i, beh), "r%dl%d%s" % (i, i + 1, beh)]
     return syms + ["u"] + list(api)
 
 
 def exhaustive_cases(shared, ctx):
     idx = shared["index"]
-    top, held = "a%d" % idx[("AppleTV", "remote_control")], "a%d" % idx[("RemoteControl", "play")]
-    feat = "a%d" % idx[("Features", "all_features")]
+    itop, iheld, ifeat = idx[("AppleTV", "remote_control")], idx[("RemoteControl", "play")], idx[("Features", "all_features")]
+    top, held, feat = "a%d" % itop, "a%d" % iheld, "a%d" % ifeat
     probes = [held, top, feat]
+    # what the user's DeviceListener handler does: returns / raises / uses the API and close() / both
+    behs = ["", "!", "~a%d+a%d+u+a%d" % (itop, iheld, ifeat), "~a%d+u+a%d!" % (iheld, itop)]
+    L5, L4 = ctx.scale(5, 6), ctx.scale(4, 5)
     plans = [
-        # (n protocols, max length, api symbols, [proto configs], listeners)
-        (1, ctx.scale(5, 6), [top, held], [[(1, ())], [(0, ("c",))], [(1, ("l0",))]], "a"),
-        (1, ctx.scale(5, 6), [top, held], [[(0, ("c",))]], "n"),
-        (2, ctx.scale(5, 6), [held], [[(1, ("c",)), (0, ("l0",))], [(0, ()), (1, ("c",))]], "a"),
-        (2, ctx.scale(4, 5), [top], [[(1, ("l0", "c")), (1, ())]], "n"),
-        (3, ctx.scale(5, 6), [], [[(1, ("c",)), (0, ()), (2, ("l0",))]], "a"),
-        (3, ctx.scale(4, 5), [top], [[(0, ()), (1, ("c",)), (1, ("c",))]], "a"),
+        # (n protocols, max length per behaviour, api symbols, [proto configs as kinds], listeners)
+        (1, [L5, L4, L4, L4], [top, held], [[(1, ())], [(0, ("c",))], [(1, ("l0",))]], "a"),
+        (1, [L5, 0, 0, 0], [top, held], [[(0, ("c",))]], "n"),
+        (2, [L5, L4, L4, L4], [held], [[(1, ("c",)), (0, ("l0",))], [(0, ()), (1, ("c",))]], "a"),
+        (2, [L4, 0, 0, 0], [top], [[(1, ("l0", "c")), (1, ())]], "n"),
+        (3, [L5, L4, L4, L4], [], [[(1, ("c",)), (0, ()), (2, ("l0",))]], "a"),
+        (3, [L4, 3, 3, 3], [top], [[(0, ()), (1, ("c",)), (1, ("c",))]], "a"),
     ]
     count = 0
-    for n, maxlen, api, configs, listeners in plans:
-        syms = alphabet(n, api)
-        for protos in configs:
-            for lmode in listeners:
-                for length in range(0, maxlen + 1):
-                    for seq in itertools.product(syms, repeat=length):
-                        count += 1
-                        yield {"listener": lmode, "protos": [list(p) for p in protos],
-                               "reporters": DEFAULT_REPORTERS[:n], "events": ["s"] + with_probes(seq, probes),
-                               "probe": 3, "sweep": length <= 3 or count % 4 == 0}
+    for n, maxlens, api, configs, listeners in plans:
+        for beh, maxlen in zip(behs, maxlens):
+            if beh and maxlen == 0:
+                continue
+            syms = alphabet(n, api, beh)
+            for protos in configs:
+                pcfg = [[t, [k + beh for k in kinds]] for t, kinds in protos]
+                for lmode in listeners:
+                    for length in range(0, maxlen + 1):
+                        for seq in itertools.product(syms, repeat=length):
+                            count += 1
+                            yield {"listener": lmode, "protos": pcfg,
+                                   "reporters": DEFAULT_REPORTERS[:n], "events": ["s"] + with_probes(seq, probes),
+                                   "probe": 3, "sweep": length <= 3 or count % 4 == 0}
+
+
+def random_beh(rng, nmem, members):
+    x = rng.random()
+    if x < 0.45:
+        return ""
+    inner = []
+    if x < 0.85:
+        for _ in range(rng.randint(1, 3)):
+            if rng.random() < 0.3:
+                inner.append("u")
+            else:
+                m = rng.randrange(nmem)
+                inner.append("u" if members[m]["kind"] == "closeExempt" else "a%d" % m)
+    raises = rng.random() < 0.4 or not inner
+    return ("~" + "+".join(inner) if inner else "") + ("!" if raises else "")
 
 
 def random_cases(shared, ctx, count):
@@ -491,7 +620,8 @@ def random_cases(shared, ctx, count):
         n = rng.randint(1, 3)
         protos = []
         for _i in range(n):
-            kinds = [rng.choice(["c", "l%d" % rng.randrange(N_EXC)]) for _ in range(rng.choice([0, 0, 1, 1, 2]))]
+            kinds = [rng.choice(["c", "l%d" % rng.randrange(N_EXC)]) + random_beh(rng, nmem, members)
+                     for _ in range(rng.choice([0, 0, 1, 1, 2]))]
             protos.append([rng.randint(0, 2), kinds])
         reporters = [rng.choice(["mrp", "direct", "companion", "airplay"]) for _ in range(n)]
         length = rng.randint(3, ctx.scale(8, 12))
@@ -499,19 +629,19 @@ def random_cases(shared, ctx, count):
         for _j in range(length):
             x = rng.random()
             if x < 0.30:
-                events.append("r%d%s" % (rng.randrange(n), rng.choice(["c", "l%d" % rng.randrange(N_EXC)])))
+                events.append("r%d%s%s" % (rng.randrange(n), rng.choice(["c", "l%d" % rng.randrange(N_EXC)]), random_beh(rng, nmem, members)))
             elif x < 0.45:
                 events.append("u")
-            elif x < 0.75:
+            elif x < 0.72:
                 m = rng.randrange(nmem)
                 if members[m]["kind"] == "closeExempt":
                     events.append("u")
                 else:
                     events.append("a%d" % m)
-            elif x < 0.83:
+            elif x < 0.82:
                 events.append(rng.choice(["s", "s", "t"]))
             else:
-                events.append("p%d" % rng.randrange(n))
+                events.append("p%d%s" % (rng.randrange(n), random_beh(rng, nmem, members)))
         lmode = rng.choice(["a", "a", "a", "n", "d"])
         yield {"listener": lmode, "protos": protos, "reporters": reporters, "events": events, "probe": False}
 
@@ -521,6 +651,7 @@ def random_cases(shared, ctx, count):
 def make_shared():
     from pyatv import conf
     from pyatv.const import Protocol
+    from pyatv.settings import Settings
     from tools.gen import c09 as gen
 
     table = gen.table()
@@ -531,30 +662,92 @@ def make_shared():
               "index": {(r["iface"], r["name"]): i for i, r in enumerate(table["members"])}}
     shared["args"] = dummy_args(table)
     shared["classes"] = make_classes()
-    from pyatv.settings import Settings
     shared["settings"] = Settings()
     return shared
+
+
+ALLOWED_OPEN = {"AppleTV", "RemoteControl", "Features", "Metadata", "Apps", "UserAccounts", "Keyboard", "TouchGestures", "Power", "Audio"}
 
 
 def safe_before_close(shared, case):
     """API calls made while the device is still open go to the dummy protocols; only let
     through the ones that cannot do anything but relay (the sampled generator may pick any
-    member, so anything that is not a plain relay is replaced before the first close/report)."""
+    member, so anything that is not a plain relay is replaced before the first close/report;
+    PushUpdater.start/stop have an effect the model tracks as its own events)."""
     table = shared["table"]["members"]
-    allowed_ifaces = {"AppleTV", "RemoteControl", "Features", "Metadata", "Apps", "UserAccounts", "Keyboard", "TouchGestures", "Power", "Audio"}
-    seen = False
+    play = "a%d" % shared["index"][("RemoteControl", "play")]
+    state = {"seen": False}
+
+    def fix_member(tok, top_level):
+        row = table[int(tok[1:])]
+        if row["iface"] == "PushUpdater" and row["name"] in ("start", "stop"):
+            return ("s" if row["name"] == "start" else "t") if top_level else play
+        if not state["seen"] and (row["iface"] not in ALLOWED_OPEN or row["name"] in ("connect",)):
+            return play
+        return tok
+
+    def fix_beh(tok):
+        head, inner, raises = split_beh(tok)
+        inner = [t if t == "u" else fix_member(t, False) for t in inner]
+        return head + ("~" + "+".join(inner) if inner else "") + ("!" if raises else "")
+
     events = []
     for tok in case["events"]:
-        if tok == "u" or (tok[0] == "r" and case["listener"] != "d"):
-            seen = True          # (a report does not close the device when the listener was collected)
         if tok[0] == "a":
-            row = table[int(tok[1:])]
-            if row["iface"] == "PushUpdater" and row["name"] in ("start", "stop"):
-                tok = "s" if row["name"] == "start" else "t"     # these two have an effect the model tracks
-            elif not seen and (row["iface"] not in allowed_ifaces or row["name"] in ("connect",)):
-                tok = "a%d" % shared["index"][("RemoteControl", "play")]
+            tok = fix_member(tok, True)
+        elif tok[0] in "rp":
+            tok = fix_beh(tok)     # inner calls may run while the device is open (dead listener, push handlers)
+        if tok == "u" or (tok[0] == "r" and case["listener"] != "d"):
+            state["seen"] = True   # (a report does not close the device when the listener was collected)
         events.append(tok)
-    return dict(case, events=events)
+    state["seen"] = False          # reports emitted by close(): the device may still be open for a dead listener
+    protos = [[t, [fix_beh(k) for k in kinds]] for t, kinds in case["protos"]]
+    return dict(case, events=events, protos=protos)
+
+
+_WORKER = {}
+
+
+def _worker_init(repo):
+    import sys
+    import warnings
+
+    if repo and repo not in sys.path[:1]:
+        sys.path.insert(0, repo)
+    warnings.showwarning = lambda *a, **k: None
+    _WORKER["shared"] = make_shared()
+
+
+def _worker_run(cases):
+    shared = _WORKER["shared"]
+    return _run_cases(shared, cases)
+
+
+def _run_cases(shared, cases):
+    loop = asyncio.new_event_loop()
+    asyncio.set_event_loop(loop)
+    results = []
+    try:
+        for case in cases:
+            try:
+                obs = loop.run_until_complete(run_case(shared, case))
+            except Exception as ex:  # the harness must survive changed code
+                obs = {"outs": ["harness-exception:" + type(ex).__name__ + ":" + str(ex)[:80]], "N": [], "C": -1, "K": [], "P": "?",
+                       "B": None, "R": 1, "I": [], "escaped": [], "premise": False, "problems": [], "api_classes": [],
+                       "session_closed": 0, "loop_errors": []}
+            results.append(obs)
+    finally:
+        try:
+            pending = [t for t in asyncio.all_tasks(loop) if not t.done()]
+            for t in pending:
+                t.cancel()
+            if pending:
+                loop.run_until_complete(asyncio.gather(*pending, return_exceptions=True))
+        except Exception:
+            pass
+        asyncio.set_event_loop(None)
+        loop.close()
+    return results
 
 
 def evaluate(ctx, shared, cases, judge=True, chunk=40000):
@@ -572,57 +765,59 @@ def _evaluate(ctx, shared, cases, judge=True):
     import warnings
 
     box = {}
+    lines = [model_line(c) for c in cases]
 
-    def ask():
+    def ask(key, part):
         try:
-            box["answers"] = ctx.lean([model_line(c) for c in cases])
+            box[key] = ctx.lean(part)
         except BaseException as ex:  # re-raised in the caller's thread
             box["error"] = ex
 
-    th = threading.Thread(target=ask)
-    th.start()
+    half = len(lines) // 2 if len(lines) > 2000 else len(lines)
+    threads = [threading.Thread(target=ask, args=("a", lines[:half]))]
+    if half < len(lines):
+        threads.append(threading.Thread(target=ask, args=("b", lines[half:])))
+    for th in threads:
+        th.start()
     saved_show = warnings.showwarning
     warnings.showwarning = lambda *a, **k: None      # pyatv's `deprecated` wrapper warns on every call
-    loop = asyncio.new_event_loop()
-    asyncio.set_event_loop(loop)
-    results = []
     try:
-        for case in cases:
-            try:
-                obs = loop.run_until_complete(run_case(shared, case))
-            except Exception as ex:  # the harness must survive changed code
-                obs = {"outs": ["harness-exception:" + type(ex).__name__ + ":" + str(ex)[:80]], "N": [], "C": -1, "K": [], "P": "?",
-                       "B": None, "R": 1, "escaped": [], "premise": False, "problems": [], "api_classes": [], "session_closed": 0}
-            results.append((case, obs))
+        pool = shared.get("pool")
+        if pool is not None and len(cases) > 600:
+            step = 300
+            parts = [cases[i:i + step] for i in range(0, len(cases), step)]
+            observations = [o for part in pool.imap(_worker_run, parts) for o in part]
+        else:
+            observations = _run_cases(shared, cases)
     finally:
-        try:
-            pending = [t for t in asyncio.all_tasks(loop) if not t.done()]
-            for t in pending:
-                t.cancel()
-            if pending:
-                loop.run_until_complete(asyncio.gather(*pending, return_exceptions=True))
-        except Exception:
-            pass
-        asyncio.set_event_loop(None)
-        loop.close()
         warnings.showwarning = saved_show
-        th.join()
+        for th in threads:
+            th.join()
     if "error" in box:
         raise box["error"]
-    answers = box["answers"]
-    for (case, obs), ans in zip(results, answers):
+    answers = box.get("a", []) + box.get("b", [])
+    for case, obs, ans in zip(cases, observations, answers):
         events = case["events"]
         core = events[1::case["probe"]] if case.get("probe") else events
         first = next((j for j, e in enumerate(core) if e[0] in "ru"), None)
-        nontrivial = first is not None and first < len(core) - 1
+        reentrant = any("~" in e for e in core) or any("~" in k for _t, ks in case["protos"] for k in ks)
+        nontrivial = first is not None and (first < len(core) - 1 or reentrant)
         ctx.case([case["listener"], case["protos"], case["reporters"], events], nontrivial,
-                 sample={"listener": case["listener"], "protos": case["protos"], "events": core, "notified": obs["N"], "outs": obs["outs"][:12]})
+                 sample={"listener": case["listener"], "protos": case["protos"], "events": core, "notified": obs["N"],
+                         "outs": obs["outs"][:12], "inside_callbacks": obs["I"][:6]})
         ctx.note("protocols:%d" % len(case["protos"]))
         ctx.note("listener:" + case["listener"])
         ctx.note("len:%d" % len(core))
         for e in core:
             ctx.note("ev:" + ("report" if e[0] == "r" else "close" if e == "u" else "api" if e[0] == "a" else "push"))
+            if e[0] in "rp":
+                ctx.note("handler:" + ("raises+reenters" if ("!" in e and "~" in e) else "raises" if "!" in e else "reenters" if "~" in e else "returns"))
         ctx.note("notifications:%d" % len(obs["N"]))
+        ctx.note("calls-inside-callbacks", len(obs["I"]))
+        if "userRaised" in obs["outs"]:
+            ctx.note("close-propagated-user-exception")
+        if "escaped" in obs["outs"]:
+            ctx.note("report-propagated-user-exception")
         if obs["B"] is not None:
             ctx.note("swept-after-close")
         for c in obs["api_classes"]:
@@ -639,8 +834,9 @@ def _evaluate(ctx, shared, cases, judge=True):
         if judge:
             for sig, what in obs["problems"]:
                 ctx.fail(sig, {k: case[k] for k in ("listener", "protos", "reporters", "events")},
-                         {"outs": obs["outs"], "notified": obs["N"], "close_log": obs["K"], "pending": obs["P"]},
-                         "property C09 (blocked after close/loss, close() idempotent, pushes stop, at most one notification: the first)", what)
+                         {"outs": obs["outs"], "notified": obs["N"], "close_log": obs["K"], "pending": obs["P"], "inside_callbacks": obs["I"]},
+                         "property C09 (blocked after close/loss — inside the notification callback too and whether or not it "
+                         "raises —, close() idempotent, pushes stop, at most one notification: the first)", what)
 
 
 def handshake(ctx, shared):
@@ -671,6 +867,34 @@ def table_witnesses(shared):
     return cases
 
 
+def fixed_cases(shared):
+    """regression shapes: loss during teardown, close during loss, all reporters, user code inside callbacks"""
+    idx = shared["index"]
+    top, held = "a%d" % idx[("AppleTV", "remote_control")], "a%d" % idx[("RemoteControl", "play")]
+    info = "a%d" % idx[("AppleTV", "device_info")]
+    reent = "~%s+%s+u+%s" % (top, held, info)
+    fixed = []
+    for reps in (["mrp", "direct", "companion"], ["airplay", "companion", "mrp"], ["direct", "airplay", "direct"]):
+        for lmode in "and":
+            fixed.append({"listener": lmode, "protos": [[1, ["c"]], [0, ["l1"]], [2, ["c", "l2"]]], "reporters": reps,
+                          "events": ["s", "p0", "r1l3", "p0", "u", "r0c", "u", "r2l0", "p0", "s"], "probe": False})
+            fixed.append({"listener": lmode, "protos": [[1, ["c"]], [0, ["l1"]], [2, []]], "reporters": reps,
+                          "events": ["s", "p0", "u", "u", "r2l3", "p0", "t"], "probe": False})
+            for beh in ("!", reent, reent + "!"):
+                for i in range(3):
+                    for kind in ("c", "l2"):
+                        # a protocol reports; the user's handler raises / uses the API / closes from inside
+                        fixed.append({"listener": lmode, "protos": [[1, []], [0, []], [2, []]], "reporters": reps,
+                                      "events": ["s", "p0", "r%d%s%s" % (i, kind, beh), top, held, "p0", "u", "u", "r0c" + beh, held], "probe": False})
+                # the user closes; protocol 1 reports while being closed; the handler raises / re-enters
+                fixed.append({"listener": lmode, "protos": [[1, []], [1, ["c" + beh]], [2, ["l1" + beh]]], "reporters": reps,
+                              "events": ["s", "p0", "u", top, held, "p0", "u", "r2l0" + beh, "u", held], "probe": False})
+            # the PushListener handler closes the device / raises from inside a push callback
+            fixed.append({"listener": lmode, "protos": [[1, ["c" + reent]], [0, []]], "reporters": reps[:2],
+                          "events": ["s", "p0~%s+u+%s+u!" % (held, held), "p0", top, "u", "p0!", "r1l1"], "probe": False})
+    return fixed
+
+
 def run(ctx, only=None):
     shared = make_shared()
     if only is not None:
@@ -680,20 +904,27 @@ def run(ctx, only=None):
     if shared["table"]["max_calls"] != 1:
         ctx.note("max_calls:%s" % shared["table"]["max_calls"])
     evaluate(ctx, shared, table_witnesses(shared))
-    # fixed regression shapes: loss during teardown, close during loss, all reporters
-    fixed = []
-    for reps in (["mrp", "direct", "companion"], ["airplay", "companion", "mrp"], ["direct", "airplay", "direct"]):
-        for lmode in "and":
-            fixed.append({"listener": lmode, "protos": [[1, ["c"]], [0, ["l1"]], [2, ["c", "l2"]]], "reporters": reps,
-                          "events": ["s", "p0", "r1l3", "p0", "u", "r0c", "u", "r2l0", "p0", "s"], "probe": False})
-            fixed.append({"listener": lmode, "protos": [[1, ["c"]], [0, ["l1"]], [2, []]], "reporters": reps,
-                          "events": ["s", "p0", "u", "u", "r2l3", "p0", "t"], "probe": False})
-    evaluate(ctx, shared, fixed)
-    if not ctx.widened:
-        evaluate(ctx, shared, exhaustive_cases(shared, ctx))
-        ctx.exhaustive = True
-    n = ctx.scale(1500, 60000)
-    evaluate(ctx, shared, (safe_before_close(shared, c) for c in random_cases(shared, ctx, n)))
+    evaluate(ctx, shared, fixed_cases(shared))
+    pool = None
+    try:
+        try:
+            import multiprocessing
+            import sys
+
+            pool = multiprocessing.get_context("fork").Pool(ctx.scale(3, 4), _worker_init, (sys.path[0],))
+            shared["pool"] = pool
+        except Exception:
+            pool = None
+        if not ctx.widened:
+            evaluate(ctx, shared, exhaustive_cases(shared, ctx))
+            ctx.exhaustive = True
+        n = ctx.scale(2500, 60000)
+        evaluate(ctx, shared, (safe_before_close(shared, c) for c in random_cases(shared, ctx, n)))
+    finally:
+        shared.pop("pool", None)
+        if pool is not None:
+            pool.terminate()
+            pool.join()
 
 
 def widen(ctx):
